@@ -206,7 +206,7 @@ def _main(mod, modname, prop, tier, seed, only, workdir, t0, no_canaries):
     if hasattr(mod, "validate") and not only:
         try:
             val_runs, val_errs = mod.validate(tier, workdir, seed)
-        except Exception as ex:  # noqa: BLE001
+        except (Exception, core.Unsupported, core.Budget) as ex:  # noqa: BLE001
             val_errs = ["validate crashed: %s: %s" % (type(ex).__name__, ex), traceback.format_exc()[-1200:]]
         for e in val_errs:
             if not e.startswith("VIOLATION:"):
